@@ -71,8 +71,14 @@ def check_props(prop, corr):
         info['error'] = 'no Props file'
         return info
     # forbidden constructs anywhere in the development
-    rc, out = corr.sh(r"grep -rnE '\b(Admitted|admit|Axiom|Parameter|Conjecture)\b|Unset Guard|bypass_check|type-in-type|Admit Obligations' "
-                      r"--include=*.v theories | grep -vE ':[0-9]+: *\(\*|\(\*.*(Admitted|admit|Axiom|Parameter|Conjecture).*\*\)' || true",
+    try:
+        with open(os.path.join(VERIF, 'coq', '_CoqProject')) as f:
+            vfiles = [l.strip() for l in f if l.strip().endswith('.v')]
+    except OSError:
+        vfiles = []
+    rc, out = corr.sh(r"grep -nE '\b(Admitted|admit|Axiom|Parameter|Conjecture)\b|Unset Guard|bypass_check|type-in-type|Admit Obligations' "
+                      + ' '.join(vfiles) +
+                      r" /dev/null | grep -vE ':[0-9]+: *\(\*|\(\*.*(Admitted|admit|Axiom|Parameter|Conjecture).*\*\)' || true",
                       cwd=os.path.join(VERIF, 'coq'))
     info['forbidden'] = [l for l in out.splitlines() if l.strip()][:10]
     args = '-Q theories/Model TexModel -Q theories/Proofs TexProofs -Q theories/Props TexProps'
